@@ -18,6 +18,14 @@ type H struct {
 	term string
 	core string     // U, NF, OP, NA, TR, GNF
 	node types.Node // node captured by the OPTIONS / 405 builders
+	id   string     // handler id of user handlers
+}
+
+func (h *H) coreID() string {
+	if h.core == "U" {
+		return "U:" + h.id
+	}
+	return h.core
 }
 
 type mwT struct {
@@ -30,7 +38,7 @@ func (m mwT) Middleware(next *H, method, pattern, router string) *H {
 	if m.log != nil {
 		*m.log = append(*m.log, t)
 	}
-	return &H{term: t, core: next.core, node: next.node}
+	return &H{term: t, core: next.core, node: next.node, id: next.id}
 }
 
 // what the CallFunc saw during the last request
@@ -223,7 +231,7 @@ func (e *rtEnv) serve(h http.Handler, method, path, host string, hdr http.Header
 	if !e.last.called || e.last.h == nil {
 		return []string{"panic", "nil-handler"}, w
 	}
-	out := []string{"served", e.last.h.term}
+	out := []string{"served", e.last.h.term, e.last.h.coreID()}
 	if n := e.last.node; n != nil {
 		out = append(out, "1", n.Pattern(), strings.Join(n.Methods(), ","), n.AllowHeader())
 	} else {
@@ -241,7 +249,7 @@ func (e *rtEnv) execRtOp(o []string) []string {
 		tgt, pattern, hid := o[1], o[2], o[3]
 		mwIDs, rest := takeList(o[4:])
 		methods, _ := takeList(rest)
-		h := &H{term: "U(" + hid + ")", core: "U"}
+		h := &H{term: "U(" + hid + ")", core: "U", id: hid}
 		return outcome(guard(func() {
 			switch t := e.target(tgt).(type) {
 			case *mux.Router[*H]:
